@@ -259,16 +259,18 @@ def _dtype(node):
 
 class KCall:
     """A resolved call from `caller` to a package function `callee`."""
-    __slots__ = ("caller", "node", "callee", "argmap")
+    __slots__ = ("caller", "node", "callee", "argmap", "starred")
 
     def __init__(self, caller, node, callee):
         self.caller = caller
         self.node = node
         self.callee = callee
         self.argmap = {}
+        # a `*xs` the normaliser could not write out supplies an unknown number of positions: what follows it is not mapped
+        self.starred = any(isinstance(a, ast.Starred) for a in node.args) or any(kw.arg is None for kw in node.keywords)
         for i, a in enumerate(node.args):
             if isinstance(a, ast.Starred):
-                continue
+                break
             if i < len(callee.params):
                 self.argmap[callee.params[i]] = a
         for kw in node.keywords:
